@@ -24,7 +24,7 @@ def run(ctx):
     A, B = ctx.A, ctx.B
     ctx.rule("C10-R1", "guard set dominating the unique ServerCertVerified::assertion() of the hash verifier")
     f = A.fn(V + "verify_server_cert")
-    with depth_limit(9):
+    with depth_limit(14):
         ps = walk(f)
         acc = [p for p in ps if "ServerCertVerified::assertion()" in path_sig(p)[1]]
         rej = [p for p in ps if p.leaf[0] == "return" and "assertion" not in path_sig(p)[1]]
@@ -34,7 +34,7 @@ def run(ctx):
         guards = {
             "not before": r"^!PartialOrd::lt\(%s,TbsCertificate::validity\(.*from_der\(.*\)\)\.1\)\.not_before\)$" % NOW,
             "not after": r"^!PartialOrd::gt\(%s,TbsCertificate::validity\(.*from_der\(.*\)\)\.1\)\.not_after\)$" % NOW,
-            "validity period computable": r"^<ASN1Time as Sub>::sub\(TbsCertificate::validity\(.*from_der\(.*\)\)\.1\)\.not_after,ok\(.*from_der\(.*end_entity.*\)\)\.1\.validity\.not_before\) ok$",
+            "validity period computable": r"^<ASN1Time as Sub>::sub\((TbsCertificate::validity\(.*from_der\(.*end_entity.*\)\)\.1\)|ok\(.*from_der\(.*end_entity.*\)\)\.1\.validity)\.not_after,(TbsCertificate::validity\(.*from_der\(.*end_entity.*\)\)\.1\)|ok\(.*from_der\(.*end_entity.*\)\)\.1\.validity)\.not_before\) ok$",
             "validity period <= 14 days": r"^PartialOrd::le\(ok\(<ASN1Time as Sub>::sub\(.*\.not_after,.*\.not_before\)\),(ServerHashVerification::SELF_MAX_VALIDITY|SignedDuration\{1209600,)",
             "key algorithm == id-ecPublicKey": r"^!PartialEq::ne\(TbsCertificate::public_key\(.*\)\.algorithm\.algorithm,OID_KEY_TYPE_EC_PUBLIC_KEY\)$",
             "curve parameters present": r"^Option::map\(Option::as_ref\(TbsCertificate::public_key\(.*\)\.algorithm\.parameters\),closure:.*\) ok$",
